@@ -70,6 +70,8 @@ EXTRA_OPTS = {
     "ignore-constraints": "ignore_constraints=True", "no-explicit-cast": "no_explicit_cast=True", "no-data-loss": "no_data_loss=True",
     "addition": "addition=True", "ignore-required": "ignore_required=True", "data-first": "data_first_search=True",
     "case-insensitive": "case_insensitive=True", "no-default": "no_default=True",
+    # the policies that drop what does not convert: exceeding the limit is not an element / a field that fails to convert
+    "exclude-items": "invalid_items='exclude'", "exclude-values": "invalid_values='exclude'",
 }
 for _base in ("optional", "list", "dict", "union"):
     for _ename, _extra in EXTRA_OPTS.items():
@@ -226,6 +228,15 @@ def _depth(acc, dname, tier):
                 break       # taking the single element of a sequence for the data class is such a cast: rejected at any depth
             for depth in range(2, maxd + 1):
                 cases.append((f"depth={depth},index=0,key='k',wrap={wrap!r}", build_input(how, depth, 0, "k", wrap=wrap)))
+        # the very same object twice (a DAG, not a cycle): where it fits, and one level deeper where it does not
+        if how in ("kids[]", "kids{}"):
+            for depth in range(1, maxd - 1):
+                shared = build_input(how, depth)
+                if how == "kids[]":
+                    dag = {"v": 0, "kids": [shared, {"v": 9, "kids": [shared]}]}
+                else:
+                    dag = {"v": 0, "kids": {"k": shared, "j": {"v": 9, "kids": {"k": shared}}}}
+                cases.append((f"dag-shared-depth={depth}", dag))
         # the other union branch / a scalar at the nested position
         if how == "nxt" and dname != "plain-default":
             cases.append(("scalar-branch", {"v": 0, "nxt": None} if dname.split("+")[0] != "union" else {"v": 0, "nxt": 5}))
@@ -289,17 +300,27 @@ def _depth(acc, dname, tier):
                     f"print('reference depth', c18.ref_depth(data), 'limit', {limit!r})",
                     f"sys.exit(0 if (got == 'ok') == (c18.ref_depth(data) is not None and ({limit!r} is None or c18.ref_depth(data) <= {limit!r})) else 1)"]) + "\n"
                 acc.violation(fp, f"declaration '{dname}' max_depth={limit} input {label}: {msg}", script)
+            # sub-class of the recorded finding: under an exclude policy the part beyond the limit is dropped like a value
+            # that does not convert -- what comes back is cut at the limit (anything deeper would be another matter)
+            cut = ""
+            if got == "ok" and limit and "exclude" in extra:
+                try:
+                    rd = ref_depth(r)
+                except Exception:       # noqa
+                    rd = None
+                if rd is not None and rd <= limit:
+                    cut = "@excluded-beyond-limit"
             if want is None:
                 if limit is None:
                     acc.extra["cyclic_without_limit_not_judged"] += 1
                 elif got != "perr":
-                    viol("cyclic-" + got, f"a cyclic input must be rejected with ParseError, got {got}: {short(r, 80)}")
+                    viol("cyclic-" + got + cut, f"a cyclic input must be rejected with ParseError, got {got}: {short(r, 80)}")
                 continue
             should_accept = limit is None or want <= limit
             if should_accept and got != "ok":
                 viol(f"rejected-depth-{want}", f"nesting depth {want} <= limit but the input was rejected: {short(r, 100)}")
             elif not should_accept and got == "ok":
-                viol(f"accepted-depth-{want}", f"nesting depth {want} > limit but the input was accepted")
+                viol(f"accepted-depth-{want}{cut}", f"nesting depth {want} > limit but the input was accepted")
             elif not should_accept and got != "perr":
                 viol(f"exceeded-{got}", f"depth exceeded must surface as ParseError, got {got}")
             if acc.states % 37 == 0:
